@@ -251,3 +251,13 @@ Theorem C11_owed_step_is_CheckRequires_decision :
     end.
 Proof. exact owed_step_is_check_requires_decision. Qed.
 Print Assumptions C11_owed_step_is_CheckRequires_decision.
+
+(* the zero value handleUnsets writes for an owed field (BinaryProtocol.WriteEmpty, gen/Gen_thriftempty.v from the Go source) is the
+   encoding of the model's zero_of *)
+From DG Require Gen_thriftempty GenThriftemptyProofs.
+Theorem C11_WriteEmpty_source_writes_zero :
+  forall t z, zero_of t = Some z -> 0 <= GenThriftemptyProofs.key_code t < 256 -> 0 <= GenThriftemptyProofs.elem_code t < 256 ->
+  fst (Gen_thriftempty.BinaryProtocol_WriteEmpty (GenThriftemptyProofs.desc_of_ty t) 0 0 0 0 0 0 0 0 0 0) = 0 /\
+  empty_bytes (snd (Gen_thriftempty.BinaryProtocol_WriteEmpty (GenThriftemptyProofs.desc_of_ty t) 0 0 0 0 0 0 0 0 0 0)) = encode z.
+Proof. exact GenThriftemptyProofs.WriteEmpty_writes_zero. Qed.
+Print Assumptions C11_WriteEmpty_source_writes_zero.
